@@ -205,3 +205,152 @@ def rank4_and_rank5(tier, rng, rep):
         rep.case(key=nm, nontrivial=True, sample=inp if nm == "A4" else None)
         if len(rep.failures) >= 3:
             return
+
+
+# ---------------------------------------------------------------------------------------------- long words, full growth series
+class RootOracle:
+    """Independent solution of the word problem for words of any length: the geometric representation on the root space
+    (Bourbaki, Lie IV-VI, ch. V par. 4): w s_i is longer than w iff w(alpha_i) is a positive root.  Written from the Coxeter
+    matrix with plain NumPy; nothing of the library is used."""
+    def __init__(self, M):
+        self.rank = len(M)
+        self.B = np.array([[1.0 if i == j else (-1.0 if M[i][j] <= 0 else -np.cos(np.pi / M[i][j])) for j in range(self.rank)] for i in range(self.rank)])
+        self.S = []
+        for i in range(self.rank):
+            R = np.identity(self.rank)
+            R[i, :] -= 2 * self.B[i, :]            # s_i(v) = v - 2 B(v, e_i) e_i  in coordinates on the simple roots
+            self.S.append(R)
+
+    @staticmethod
+    def positive(v):
+        return v[np.argmax(np.abs(v))] > 0
+
+    def matrix(self, w):
+        g = np.identity(self.rank)
+        for s in w:
+            g = g @ self.S[s]
+        return g
+
+    def reduced(self, w):
+        g = np.identity(self.rank)
+        for s in w:
+            if not self.positive(g[:, s]):
+                return False
+            g = g @ self.S[s]
+        return True
+
+    def shortlex_form(self, w):
+        """shortlex-least reduced word of the element of the REDUCED word w: len(w) times the least generator s with l(s g) < l(g),
+        i.e. with g^-1(alpha_s) negative; g^-1 is kept as a product of reflections (no matrix inversion)"""
+        ginv = np.identity(self.rank)
+        for s in w:
+            ginv = self.S[s] @ ginv
+        out = []
+        for _ in range(len(w)):
+            for s in range(self.rank):
+                if not self.positive(ginv[:, s]):
+                    out.append(s)
+                    ginv = ginv @ self.S[s]
+                    break
+            else:
+                raise RuntimeError("no descent found")
+        return tuple(out)
+
+
+def _path_counts(A, L):
+    """number of accepted words of each length 0..L from the start state (dynamic programming on the outgoing view)"""
+    cur = {A.start_vertices[0]: 1}
+    out = [1]
+    for _ in range(L):
+        nxt = {}
+        for v, c in cur.items():
+            for w_, labs in A._out_dict[v].items():
+                nxt[w_] = nxt.get(w_, 0) + c * len(labs)
+        cur = nxt
+        out.append(sum(cur.values()))
+    return out
+
+
+FINITE = {"A3": ([[1, 3, 2], [3, 1, 3], [2, 3, 1]], (2, 3, 4)), "B3": ([[1, 3, 2], [3, 1, 4], [2, 4, 1]], (2, 4, 6)), "H3": ([[1, 5, 2], [5, 1, 3], [2, 3, 1]], (2, 6, 10)),
+          "I2_7": ([[1, 7], [7, 1]], (2, 7)), "A1xA1xA1": ([[1, 2, 2], [2, 1, 2], [2, 2, 1]], (2, 2, 2)),
+          "A4": ([[1, 3, 2, 2], [3, 1, 3, 2], [2, 3, 1, 3], [2, 2, 3, 1]], (2, 3, 4, 5)), "B4": ([[1, 3, 2, 2], [3, 1, 3, 2], [2, 3, 1, 4], [2, 2, 4, 1]], (2, 4, 6, 8)),
+          "D4": ([[1, 3, 2, 2], [3, 1, 3, 3], [2, 3, 1, 2], [2, 3, 2, 1]], (2, 4, 4, 6)), "F4": ([[1, 3, 2, 2], [3, 1, 4, 2], [2, 4, 1, 3], [2, 2, 3, 1]], (2, 6, 8, 12)),
+          "H4": ([[1, 3, 2, 2], [3, 1, 3, 2], [2, 3, 1, 5], [2, 2, 5, 1]], (2, 12, 20, 30)), "H4_reversed": ([[1, 5, 2, 2], [5, 1, 3, 2], [2, 3, 1, 3], [2, 2, 3, 1]], (2, 12, 20, 30)),
+          "A5": ([[1, 3, 2, 2, 2], [3, 1, 3, 2, 2], [2, 3, 1, 3, 2], [2, 2, 3, 1, 3], [2, 2, 2, 3, 1]], (2, 3, 4, 5, 6))}
+INFINITE = {"237": [[1, 3, 2], [3, 1, 7], [2, 7, 1]], "affine_A2": [[1, 3, 3], [3, 1, 3], [3, 3, 1]], "ideal": [[1, 0, 0], [0, 1, 0], [0, 0, 1]],
+            "compact_tetrahedral_353": [[1, 3, 2, 2], [3, 1, 5, 2], [2, 5, 1, 3], [2, 2, 3, 1]], "affine_A4": [[1, 3, 2, 2, 3], [3, 1, 3, 2, 2], [2, 3, 1, 3, 2], [2, 2, 3, 1, 3], [3, 2, 2, 3, 1]]}
+
+
+@bounded(P, "long_words_and_full_growth_series", functions=F_ALL,
+         note="finite Coxeter groups up to H4 (60 small roots): the whole growth series of the shortlex automaton equals the Poincare polynomial prod (1 + q + ... + q^(d_i - 1)) over the degrees; "
+              "long words (up to the longest element, resp. length 20) against the root-positivity oracle; infinite groups with long words")
+def long_words_and_full_growth_series(tier, rng, rep):
+    NW = 400 if tier == 'thorough' else 80
+    rep.rule = (f"finite: {', '.join(FINITE)}; infinite: {', '.join(INFINITE)}; per group {NW} random walks: reduced words grown by the oracle (accepted by the geodesic automaton; accepted by the shortlex "
+                "automaton iff equal to the oracle's normal form), each extended once by a letter that makes it non-reduced (rejected), and random accepted paths of both automata (reduced / normal forms)")
+    rep.bound = f"{len(FINITE) + len(INFINITE)} groups x {NW} walks"
+    groups = [(nm, M, deg) for nm, (M, deg) in FINITE.items()] + [(nm, M, None) for nm, M in INFINITE.items()]
+    t_start = time.time()
+    t_max = 0.6 * float(os.environ.get("VF_OB_BUDGET", "900" if tier == 'thorough' else "150"))
+    for gi, (nm, M, deg) in enumerate(groups):
+        if time.time() - t_start > t_max:
+            rep.bound = f"{gi} of {len(groups)} groups (stopped at 60% of the per-obligation time budget)"
+            break
+        inp = {"name": nm, "coxeter_matrix": M}
+        rank = len(M)
+
+        def body():
+            orc = RootOracle(M)
+            geo = coxeter_automaton.generate_automaton_coxeter_matrix(M, False)
+            slx = coxeter_automaton.generate_automaton_coxeter_matrix(M, True)
+            if deg is not None:
+                poly = np.array([1], dtype=object)
+                for d_ in deg:
+                    poly = np.convolve(poly, np.ones(d_, dtype=object))
+                want = [int(x) for x in poly] + [0, 0]
+                got = _path_counts(slx, len(want) - 1)
+                if got != want:
+                    bad = next(i for i in range(len(want)) if got[i] != want[i])
+                    rep.fail("growth_series", f"{nm}: {got[bad]} accepted shortlex words of length {bad}, the group has {want[bad]} elements of that length (total {sum(got)} vs order {sum(want)})", {**inp, "length": bad}); return
+                gotg = _path_counts(geo, len(want) - 1)
+                if gotg[len(want) - 2:] != [0, 0] or gotg[len(want) - 3] < 1:
+                    rep.fail("geodesic_accepts_iff_reduced", f"{nm}: the geodesic automaton accepts {gotg[-2]} words longer than the longest element", inp); return
+            Lmax = (sum(deg) - rank) if deg is not None else 20      # float64 root coordinates grow exponentially in infinite groups
+            for _ in range(NW):
+                # a reduced word grown letter by letter with the oracle
+                w, g = [], np.identity(rank)
+                target = int(rng.integers(max(1, Lmax // 2), Lmax + 1))
+                while len(w) < target:
+                    cand = [s for s in range(rank) if orc.positive(g[:, s])]
+                    if not cand:
+                        break
+                    s = int(rng.choice(cand)); w.append(s); g = g @ orc.S[s]
+                w = tuple(w)
+                if not geo.accepts(w):
+                    rep.fail("geodesic_accepts_iff_reduced", f"{nm}: reduced word of length {len(w)} rejected", {**inp, "word": list(w)}); return
+                nf = orc.shortlex_form(w)
+                if slx.accepts(w) != (nf == w) or not slx.accepts(nf):
+                    rep.fail("shortlex_accepts_exactly_the_least_reduced_word", f"{nm}: word {w}, normal form {nf}", {**inp, "word": list(w)}); return
+                desc = [s for s in range(rank) if not orc.positive(g[:, s])]
+                if desc:
+                    bad = w + (int(rng.choice(desc)),)
+                    if geo.accepts(bad) or slx.accepts(bad):
+                        rep.fail("geodesic_accepts_iff_reduced", f"{nm}: non-reduced word of length {len(bad)} accepted", {**inp, "word": list(bad)}); return
+                # a random accepted path of each automaton
+                for kind, A in (("geodesic", geo), ("shortlex", slx)):
+                    v, p = A.start_vertices[0], []
+                    for _k in range(target):
+                        out = [(l, w_) for w_, labs in A._out_dict[v].items() for l in labs]
+                        if not out:
+                            break
+                        l, v = out[int(rng.integers(0, len(out)))]
+                        p.append(l)
+                    p = tuple(p)
+                    if not orc.reduced(p):
+                        rep.fail("geodesic_accepts_iff_reduced", f"{nm}: the {kind} automaton accepts the non-reduced word {p}", {**inp, "word": list(p), "automaton": kind}); return
+                    if kind == "shortlex" and orc.shortlex_form(p) != p:
+                        rep.fail("shortlex_accepts_exactly_the_least_reduced_word", f"{nm}: accepted {p}, the least word of that element is {orc.shortlex_form(p)}", {**inp, "word": list(p)}); return
+        rep.attempt("coxeter_automaton_runs", inp, body)
+        rep.case(key=nm, nontrivial=True, sample=inp if nm == "H3" else None)
+        if len(rep.failures) >= 3:
+            return
